@@ -33,7 +33,7 @@ export S
 i=0
 for g in "${groups[@]}"; do
   i=$((i+1)); mkdir -p "$S/v$i"; cp "$S/verif/known_findings.json" "$S/v$i/"
-  ( VERIF_TIER=${VERIF_TIER:-quick} VERIF_OVERLAY="$S/overlay.json" VERIF_C_REPO="$S/repo" VERIF_DIR="$S/v$i" /verif/bin/ddpverif --multi $g > "$S/out$i.txt" 2>&1 ) &
+  ( VERIF_TIER=${VERIF_TIER:-quick} VERIF_OVERLAY="$S/overlay.json" VERIF_C_REPO="$S/repo" VERIF_DIR="$S/v$i" ${VERIF_BIN:-/verif/bin/ddpverif} --multi $g > "$S/out$i.txt" 2>&1 ) &
 done
 wait
 cat "$S"/out*.txt | grep -B1 "^VIOLATION\|LOAD FAILED\|PANIC\|^FIRED" | grep -v "^--" | sed "s#$S/##g" | head -${MUT_LINES:-30} > "$S/result.txt"
